@@ -662,7 +662,13 @@ func (c *txCase) doDoltCommit(s *txSess) {
 	err := s.conn.Exec(q)
 	c.logf("%s: %s -> %s", s.name, q, errStr(err))
 	switch {
-	case nothing && !info.conflict && !(c.headUnsure[b] && err == nil):
+	case nothing && !info.conflict && err == nil:
+		// Whether dolt reports "nothing to commit" or writes a commit with unchanged tables is not part
+		// of the property (observed: an empty commit when another session moved the working set
+		// meanwhile, or when the head commit carries a conflict artifact that no SELECT shows). The
+		// statement succeeded: it is checked like every other successful dolt_commit below.
+		c.class("doltcommit_empty_commit")
+	case nothing && !info.conflict:
 		// dolt_commit "is expected to COMMIT": with nothing to put into a dolt commit it still commits
 		// the SQL transaction (dolt_commit.go: "Finalize the transaction if there is one") and then
 		// reports "nothing to commit".
